@@ -1,5 +1,6 @@
 mod area;
 mod links;
+mod modes;
 mod paint;
 mod selection;
 mod binfmt;
@@ -51,6 +52,7 @@ fn main() {
         "selection" => selection::selection(&a),
         "paint" => paint::paint(&a),
         "links" => links::links(&a),
+        "modes" => modes::modes(&a),
         "igs" => igs::igs(&a),
         "rip" => rip::rip(&a),
         other => {
